@@ -89,9 +89,10 @@ def build(eng, n: int, DataSet, prefix="d"):
         mask = {}
         if mask_kind == 2:
             mask[-1] = True
+        np_flags = eng.choice(2, prefix + ".mask.numpy_bool") == 1      # flags of type numpy.bool_ (e.g. a mask built from an array comparison)
         for i in range(n):
             if eng.choice(2, "%s.mask.has%d" % (prefix, i)) == 1:
-                b = eng.boolean("%s.mask.flag%d" % (prefix, i))
+                b = eng.boolean("%s.mask.flag%d" % (prefix, i), npy=np_flags)
                 mask[i] = b
                 flags[i] = b
         if mask_kind == 2:
@@ -124,9 +125,10 @@ def step(eng, DataSet, d, pts: List[Pt], op: str, tag: str):
             if kind == 2:
                 m[n + 1] = True
                 m[-2] = False
+            np_flags = _NP_IN_OPS[0] and eng.choice(2, tag + ".numpy_bool") == 1
             for i in range(n):
                 if eng.choice(2, "%s.has%d" % (tag, i)) == 1:
-                    m[i] = eng.boolean("%s.flag%d" % (tag, i))
+                    m[i] = eng.boolean("%s.flag%d" % (tag, i), npy=np_flags)
         before = dict(m)
         d.set_mask(m)
         eng.check(list(m.keys()) == list(before.keys()) and all(m[k] is before[k] for k in before), "set_mask:caller's dictionary unchanged")
@@ -242,7 +244,11 @@ def _key(witness, label):
     return "%s|ascending=%s|mask.kind=%s" % (label, asc, witness.get("d.mask.kind"))
 
 
+_NP_IN_OPS = [False]        # numpy.bool_ flags in set_mask steps as well (thorough tier); in construction masks always
+
+
 def obligations(tier: str):
+    _NP_IN_OPS[0] = tier != "quick"
     from sx.runner import Obligation
     from pyimpspec.data.data_set import DataSet
     funcs = [DataSet.__init__, DataSet.set_mask, DataSet.get_mask, DataSet.get_frequencies, DataSet.get_impedances,
